@@ -1,7 +1,7 @@
 (* C05 — property theorems only. Source = C05.Src, regenerated from /repo on this run. *)
 From Coq Require Import Reals ZArith String List Bool Lra.
 Require Import Py.PyAst Py.PyVal Py.PySem Py.XLemmas.
-Require Import C05.Src C05.Flrw C05.Model.
+Require Import C05.Src C05.Flrw C05.Model C05.ZMaxN.
 Import ListNotations.
 Open Scope string_scope.
 Open Scope R_scope.
@@ -114,3 +114,23 @@ Theorem C05_z_max_covers_all_redshifts : forall zs1 zs2a zs2b za rg cu,
      exists o, yields Gz 120 (CClass "CosmoLikelihood" src_CosmoLikelihood_init) None (init_args zs1 zs2a zs2b za) [] rg cu o cu [] /\ fieldz o "_z_max" = Some (num (Rmax zs1 za))).
 Proof. intros. split; [apply z_max_second_behind | split; [apply z_max_second_in_front | apply z_max_first_lens_highest]]. Qed.
 Print Assumptions C05_z_max_covers_all_redshifts.
+
+(* THE INTERPOLATION RANGE COVERS A SAMPLE OF ANY SIZE (induction over the interpreter's loop in CosmoLikelihood.__init__, ZMaxN.v): for every
+   list of lenses - each with both, one or no source redshift - the constructed object stores
+       _z_max = max(running maximum of all source redshifts, anchor redshift),
+   so every z_source and every z_source2 of the sample, and the anchor, lie inside [0, _z_max]; no variate is consumed, nothing is logged. *)
+Theorem C05_z_max_covers_a_sample_of_any_size : forall (za : R) (specs : list spec) rg cu,
+  exists obj zmax,
+  yields Gz 120 (CClass "CosmoLikelihood" src_CosmoLikelihood_init) None (ctor_args za specs) [] rg cu obj cu []
+  /\ fieldz obj "_z_max" = Some (Model.num zmax)
+  /\ za <= zmax /\ 0 <= zmax
+  /\ (forall s, In s specs -> (forall a, fst s = Some a -> a <= zmax) /\ (forall b, snd s = Some b -> b <= zmax)).
+Proof.
+  intros za specs rg cu. destruct (z_max_any_number_of_lenses za specs rg cu) as [obj [Hy Hf]].
+  exists obj, (Rmax (zr (zfold None specs)) za). split; [exact Hy|]. split; [exact Hf|].
+  destruct (zfold_ge specs None) as [H0 H1]. cbn [zr] in H0.
+  pose proof (Rmax_l (zr (zfold None specs)) za). pose proof (Rmax_r (zr (zfold None specs)) za).
+  split; [lra|]. split; [lra|]. intros s Hs. destruct (H1 s Hs) as [Ha Hb].
+  split; intros z Hz; [specialize (Ha z Hz) | specialize (Hb z Hz)]; lra.
+Qed.
+Print Assumptions C05_z_max_covers_a_sample_of_any_size.
